@@ -430,6 +430,8 @@ func checkC10(c *Ctx) {
 	c.Expect("R4", 7)
 	c.Expect("R5", 2)
 	checkEncoderIntegerText(c, "R7")
+	c.Rule("R9", "null and empty stay apart after decoding: no RESP text is replaced by a copy made with an idiom that turns empty into nil or nil into empty")
+	checkTextNilness(c, "R9")
 	c.Rule("R8", "decoder state does not leak between messages: the nesting counter is balanced on every path (shared with C11.R4); inline commands are split on the space byte only")
 	c.withAlias(map[string]string{"R4": "R8"}, func() { checkRecursion(c, inputCone(p)) })
 	checkInlineSplit(c, "R8")
@@ -668,4 +670,122 @@ func checkInlineSplit(c *Ctx, rule string) {
 		})
 	}
 	c.Check(bad == "", rule, "inline command split on the space byte only", at, "no Unicode-aware splitter in the inline decoder", "the inline decoder uses "+bad+", which also splits on TAB, VT, FF and Unicode spaces (U+00A0, U+3000 ...): an argument that contains such a character is cut in two, so the inline form no longer decodes to the same request as the array form")
+}
+
+// checkTextNilness (C10.R9, C03.R9): in this codec a nil Text is the null bulk ("$-1") and an empty non-nil Text the
+// empty string ("$0"). A copy of a RESP text that is written into a RESP text must keep that distinction. The copy
+// idioms that lose it: append(nil-or-empty, t...) (an empty t becomes nil, or a nil t becomes empty),
+// []byte(string(t)) and make(len(t))+copy (a nil t becomes empty). Such a copy is accepted only under a test of t.
+func checkTextNilness(c *Ctx, rule string) {
+	p := c.P
+	isText := func(v ssa.Value) bool {
+		f, b := loadedField(v)
+		return f != nil && f.Name() == "Text" && b != nil && modType(b.Type(), redisPkg, "RespValue")
+	}
+	isEmptyBase := func(v ssa.Value) bool {
+		switch x := v.(type) {
+		case *ssa.Const:
+			return x.Value == nil
+		case *ssa.MakeSlice:
+			k, ok := constInt(x.Len)
+			return ok && k == 0
+		case *ssa.Slice:
+			// t[:0] of a fresh array / literal
+			if x.High != nil {
+				if k, ok := constInt(x.High); ok && k == 0 {
+					if _, isAl := x.X.(*ssa.Alloc); isAl {
+						return true
+					}
+				}
+			}
+			if al, ok := x.X.(*ssa.Alloc); ok {
+				if at, ok := deref(al.Type()).Underlying().(*types.Array); ok && at.Len() == 0 {
+					return true
+				}
+			}
+		}
+		return false
+	}
+	// the text a nil-ness changing copy is made of, if v is such a copy
+	var lossy func(v ssa.Value, depth int) (ssa.Value, string)
+	lossy = func(v ssa.Value, depth int) (ssa.Value, string) {
+		if depth > 4 {
+			return nil, ""
+		}
+		switch x := v.(type) {
+		case *ssa.Call:
+			if isBuiltin(x, "append") && len(x.Call.Args) == 2 && isEmptyBase(x.Call.Args[0]) && isText(x.Call.Args[1]) {
+				return x.Call.Args[1], "append(empty, text...)"
+			}
+		case *ssa.Convert:
+			if inner, ok := x.X.(*ssa.Convert); ok && isByteSliceVal(x) && isStringVal(inner) && isText(inner.X) {
+				return inner.X, "[]byte(string(text))"
+			}
+		case *ssa.MakeSlice:
+			if cl, ok := x.Len.(*ssa.Call); ok && isBuiltin(cl, "len") && isText(cl.Call.Args[0]) {
+				return cl.Call.Args[0], "make([]byte, len(text)) + copy"
+			}
+		case *ssa.Slice:
+			return lossy(x.X, depth+1)
+		case *ssa.ChangeType:
+			return lossy(x.X, depth+1)
+		}
+		return nil, ""
+	}
+	nst, nbad := 0, 0
+	for _, fn := range p.FuncsIn(redisPkg) {
+		if p.isTestFn(fn) {
+			continue
+		}
+		eachInstr(fn, func(b *ssa.BasicBlock, _ int, in ssa.Instruction) {
+			st, ok := in.(*ssa.Store)
+			if !ok {
+				return
+			}
+			f, base := fieldAddr(st.Addr)
+			if f == nil || f.Name() != "Text" || !modType(base.Type(), redisPkg, "RespValue") {
+				return
+			}
+			nst++
+			src, how := lossy(st.Val, 0)
+			if src == nil {
+				return
+			}
+			// accepted under a test of the source text (nil comparison or length comparison) that decides this block
+			guarded := false
+			srcF, srcB := loadedField(src)
+			for _, d := range fn.Blocks {
+				iff, ok := d.Instrs[len(d.Instrs)-1].(*ssa.If)
+				if !ok || !(d.Dominates(b)) || d == b {
+					continue
+				}
+				tests := false
+				derives(iff.Cond, func(v ssa.Value) bool {
+					if f2, b2 := loadedField(v); f2 != nil && f2 == srcF && accessPathOr(b2) == accessPathOr(srcB) {
+						tests = true
+					}
+					return false
+				})
+				if tests {
+					for _, s := range d.Succs {
+						if len(s.Preds) == 1 && (s == b || s.Dominates(b)) {
+							guarded = true
+						}
+					}
+				}
+			}
+			if guarded {
+				return
+			}
+			nbad++
+			c.Fail(rule, fmt.Sprintf("%s text copy#%d keeps null and empty apart", fnKey(fn), nbad), st.Pos(), "a RESP text is copied with "+how+", which turns an empty string into the null bulk or the null bulk into an empty string: the client reads a key that holds \"\" as missing (or the reverse)")
+		})
+	}
+	if nst == 0 {
+		c.Unresolved(rule, "no store into RespValue.Text found")
+		return
+	}
+	if nbad == 0 {
+		c.OK(rule, "copies of a RESP text keep null and empty apart", token.NoPos, fmt.Sprintf("%d stores into RespValue.Text examined, none is a nil-ness changing copy of another text", nst))
+	}
 }
